@@ -20,6 +20,17 @@ NOTE_COMMON = ("trusted: JAX tracing (jaxpr = what jit compiles), our jaxpr inte
 # property -> (claimed?, design ref, extra note)
 CLAIMED = {
     "C01": ("4/C01", "all factor kinds x {multiply,*,hadamard,product} x update_full x cached covariance; D<=2 (3 thorough), R1,R2<=3"),
+    "C02": ("4/C02", "mass of measures vs the Gaussian mass axiom; every density-returning API normalised, decided from the returned Lambda/nu/ln_beta; D<=2, Dx+Dy<=3 (2,2 semi-symbolic in thorough)"),
+    "C03": ("4/C03", "all 12 integration keys, shared / per-component / mixed / default coefficients, D=2, K,L,M permutations of (1,2,3), R<=2 (D=3 thorough); Stein-recursion oracle"),
+    "C04": ("4/C04", "inductive step: one public operation from an arbitrary consistent pre-state (caches absent / supplied / queried); warm-vs-cold equality; D=2, R<=2, Dx+Dy<=3"),
+    "C05": ("4/C05", "get_marginal for ordered index lists D<=3 (4 semi), linear sums Dsum<=2"),
+    "C06": ("4/C06", "condition_on / condition_on_explicit for every proper ordered subset, D<=3 (4 semi)"),
+    "C07": ("4/C07", "all conditional kinds, (Dx,Dy) in {(1,1),(2,1),(1,2)} fully symbolic, (2,2) semi; (R_cond,R_x) in {(1,1),(1,2),(2,1)}"),
+    "C08": ("4/C08", "as C07"),
+    "C09": ("4/C09", "Bayes identity as C07; round trip at Dx+Dy<=3 with the prior covariance concrete for Dx+Dy=3"),
+    "C10": ("4/C10", "all conditional kinds, Dx != Dy included, R=1 with N<=2 (3 thorough) observations and R=N; well-formedness through product/slice/multiply/log_integral"),
+    "C13": ("4/C13", "entropy/KL/conditional entropy/MI equalities against Stein-moment expectations; KL>=0 and MI>=0 solver-decided only for D=Dx=Dy=1"),
+    "C19": ("4/C19", "jax.random.normal stubbed by an arbitrary array; R<=2, D<=3, n<=2"),
 }
 
 NOT_APPLICABLE = {
